@@ -88,43 +88,41 @@ def rayRows (e : List Int) (cs : List Con) : List Con :=
 def betterRow (e : List Int) (k : Int) (v : Rat) : Con :=
   gtRow (e.map ((v.den : Int) * ·)) ((v.den : Int) * k - v.num)
 
-/-- **untrusted**: a candidate optimal point of `max e·x` over `cs`, from the exact simplex of K1
-    on the standard form `a·x⁺ − a·x⁻ − s = −k`, `x⁺, x⁻, s ≥ 0`.  Whatever it returns is checked. -/
-def lpCandidate (n : Nat) (e : List Int) (cs : List Con) : Option Pt :=
+/-- **untrusted**: candidate optimal points of `max e·x` over `cs`, read off the multipliers of
+    the exact simplex of K1 run on the (small) dual `min k·y  s.t.  Σ y_i a_i = −e, y ≥ 0`
+    (`n` equations).  Whatever it returns is checked by `lpMax`; both signs are proposed. -/
+def lpCandidates (n : Nat) (e : List Int) (cs : List Con) : List Pt :=
   let m := cs.length
-  let nv := 2 * n + m
   let csA := cs.toArray
-  let A : Array Simplex.Row := (Array.range m).map fun i =>
-    let c := csA.getD i default
-    (Array.range nv).map fun j =>
-      if j < n then ((c.coeffs.getD j 0 : Int) : Rat)
-      else if j < 2 * n then - ((c.coeffs.getD (j - n) 0 : Int) : Rat)
-      else if j - 2 * n == i then -1 else 0
-  let b : Array Rat := (Array.range m).map fun i => - (((csA.getD i default).k : Int) : Rat)
-  let c : Array Rat := (Array.range nv).map fun j =>
-    if j < n then - ((e.getD j 0 : Int) : Rat)
-    else if j < 2 * n then ((e.getD (j - n) 0 : Int) : Rat) else 0
-  match Simplex.solve A b c nv with
-  | .optimal v _ =>
-    let xs : List Rat := (List.range n).map fun j => v.getD j 0 - v.getD (n + j) 0
+  let A : Array Simplex.Row := (Array.range n).map fun j =>
+    (Array.range m).map fun i => (((csA.getD i default).coeffs.getD j 0 : Int) : Rat)
+  let b : Array Rat := (Array.range n).map fun j => - ((e.getD j 0 : Int) : Rat)
+  let c : Array Rat := (Array.range m).map fun i => (((csA.getD i default).k : Int) : Rat)
+  match Simplex.solve A b c m with
+  | .optimal _ w =>
+    let xs : List Rat := (List.range n).map fun j => w.getD j 0
     let (num, den) := toIntVec xs
-    some ⟨num, den⟩
-  | _ => none
+    [⟨num.map (- ·), den⟩, ⟨num, den⟩]
+  | _ => []
 
-/-- `max {e·x + k | x ∈ sem cs}`: every answer is backed by a *verified* decision of K1 —
-    emptiness by `feasible`; unboundedness by a feasible point plus a recession direction that
-    improves the objective; an optimum by a point that satisfies every row (checked in exact
-    arithmetic) together with the infeasibility of "strictly better".  The simplex only proposes
-    the point; when a check fails the complete Fourier–Motzkin procedure answers. -/
-def lpMax (n : Nat) (e : List Int) (k : Int) (cs : List Con) : Answer :=
+/-- is `x` a point of `cs` at which `e·x + k` is maximal?  (verified: rows checked in exact
+    arithmetic, "strictly better" refuted by K1's `feasible`) -/
+def isMaxAt (n : Nat) (e : List Int) (k : Int) (cs : List Con) (x : Pt) : Bool :=
+  cs.all (fun c => conHolds c x.val) && !feasible n (betterRow e k (dot e x.val + (k : Rat)) :: cs)
+
+/-- the answer without a candidate: emptiness by `feasible`; unboundedness by a feasible point plus
+    a recession direction that improves the objective; otherwise complete Fourier–Motzkin -/
+def lpMaxSlow (n : Nat) (e : List Int) (k : Int) (cs : List Con) : Answer :=
   if !feasible n cs then .unfeasible
   else if feasible n (rayRows e cs) then .unbounded
-  else match lpCandidate n e cs with
-    | some x =>
-      let v := dot e x.val + (k : Rat)
-      if cs.all (fun c => conHolds c x.val) && !feasible n (betterRow e k v :: cs) then .optimum v
-      else lpMaxFM n e k cs
-    | none => lpMaxFM n e k cs
+  else lpMaxFM n e k cs
+
+/-- `max {e·x + k | x ∈ sem cs}`: every answer is backed by a *verified* decision of K1.  The
+    simplex only proposes points; `isMaxAt` checks them. -/
+def lpMax (n : Nat) (e : List Int) (k : Int) (cs : List Con) : Answer :=
+  match (lpCandidates n e cs).find? (fun x => cs.all (fun c => conHolds c x.val)) with
+  | some x => if isMaxAt n e k cs x then .optimum (dot e x.val + (k : Rat)) else lpMaxSlow n e k cs
+  | none => lpMaxSlow n e k cs
 
 def negL (e : List Int) : List Int := e.map (- ·)
 
@@ -209,6 +207,11 @@ def noBetter (P : Problem) (v : Rat) : Bool :=
   | .unfeasible => true
   | .optimum w => P.notBetter w v
   | _ => false
+
+/-- the relaxation has a recession direction along which the objective improves (verified by
+    K1's `feasible`): together with one feasible point of the MIP this proves the MIP unbounded,
+    whatever the ranges of the integer variables (`C06.unbounded_of_point_and_ray`) -/
+def rayExists (P : Problem) : Bool := feasible P.n (rayRows P.maxObj.1 P.cs)
 
 /-! ### one-sided judge when an integer variable is unbounded -/
 
